@@ -298,7 +298,7 @@ def judgeC07 (kind id rest impl : String) : Verdict :=
     let (io, _) := parsePObs2 impl
     let fac (o : PObs) : Facets :=
       if !finishOkOps c.ops o then [] else
-      match parseMovie o.file, (accV c.ops o).head? with
+      match parseMovie o.file, (accV (explicitOps c o) o).head? with
       | some m, some k =>
         (match videoTrack? m with
          | some vt => facetsC07Video c.cfg.codec c.cfg.width c.cfg.height vt k.data
@@ -313,7 +313,7 @@ def judgeC07 (kind id rest impl : String) : Verdict :=
       | none => "unreadable"
     let fi := fac io; let fm := fac mo
     { corr := stsdOf mo == stsdOf io && acceptPattern mo == acceptPattern io, oi := fi.isEmpty, om := fm.isEmpty,
-      region := showFacets fi, nt := finishOkOps c.ops io && !(accV c.ops io).isEmpty,
+      region := showFacets fi, nt := finishOkOps c.ops io && !(accV (explicitOps c io) io).isEmpty,
       note := if fi == fm then "" else "model-predicts:" ++ showFacets fm }
 
 end Driver
